@@ -48,12 +48,16 @@ const VAULT_REAL: [&str; 5] = [
     "borrower: harness contract executing generated adversary programs (stub by design)",
 ];
 
+fn pool3_part(quick: u64, thorough: u64) -> PlanPart {
+    PlanPart { scen: scen::<scen::pool3::Pool3>(), quick_runs: quick, thorough_runs: thorough }
+}
+
 fn vault_part(quick: u64, thorough: u64) -> PlanPart {
     PlanPart { scen: scen::<scen::vault::VaultScen>(), quick_runs: quick, thorough_runs: thorough }
 }
 
 pub fn all_ids() -> Vec<&'static str> {
-    vec!["C01", "C02", "C03", "C05", "C06", "C07", "C14", "C15"]
+    vec!["C01", "C02", "C03", "C04", "C05", "C06", "C07", "C14", "C15"]
 }
 
 pub fn plan_for(id: &str) -> Option<Plan> {
@@ -65,16 +69,31 @@ pub fn plan_for(id: &str) -> Option<Plan> {
         "C07" => {
             let mut p = pool2_plan("C07", RULE, 5000, 250_000, vec!["collect_below_threshold", "collect_above_threshold", "collect_pending_zero", "collect_pending_nonzero"]);
             p.parts.push(vault_part(2500, 120_000));
+            p.parts.push(pool3_part(1200, 60_000));
             p.real.extend(VAULT_REAL);
+            p.real.push("stableswap_3pool (real)");
             Some(p)
         }
         "C14" => {
             let mut p = pool2_plan("C14", RULE, 5000, 250_000, vec![]);
             p.parts.push(vault_part(2500, 120_000));
+            p.parts.push(pool3_part(1200, 60_000));
             p.real.extend(VAULT_REAL);
+            p.real.push("stableswap_3pool (real)");
             Some(p)
         }
         "C03" => Some(pool2_plan("C03", "seeded swarm runs of POOL2 with a stableswap pair: amp in {1,2,7,10,50,85,100,400,1000,1e6}, decimals in {(6,6),(6,8),(8,6),(6,18),(18,6),(4,5)}, reserves >= one whole token and <= 2^100 base units; every Simulation / swap is compared with an independent bisection solution of the invariant on decimal-normalised reserves, every deposit/withdrawal with the exact invariant per LP; distinct = unseen (reserves, LP supply, pending fees, LP balances) after a successful step", 4000, 250_000, vec!["stable_swap_quote_checked", "stable_deposit_withdraw_completed"])),
+        "C04" => Some(Plan {
+            property: "C04",
+            level: "exploration",
+            rule: "seeded swarm runs of POOL3 (factory + one three-asset stableswap pool): asset kinds, amp in {1..1e6}, fee triple, magnitude, users, op weights, fault switch and a history (<=200 steps) of provide/withdraw/swap (all six directions)/collect/amp ramp (valid, boundary and invalid)/round trip/deposit-withdraw/set-fees on a block-height clock that jumps inside, at and after ramps; distinct = unseen (reserves, LP supply, pending fees, LP balances) after a successful step",
+            parts: vec![pool3_part(2500, 150_000)],
+            real: vec!["stableswap_3pool (real, from /repo)", "terraswap_factory (real)", "terraswap_token / cw20-base (real)", "white-whale-std from /repo/packages"],
+            stubbed: STUBS.to_vec(),
+            assumptions: vec!["sampled histories, not all histories", "independent curve: bisection on the integer-cleared invariant with Ann = 3*amp (the family the code computes)"],
+            want_probes: vec!["trio_swap_curve_checked", "ramp_accepted", "ramp_rejected", "roundtrip_completed", "deposit_withdraw_completed"],
+            exhaustive: false,
+        }),
         "C05" => Some(Plan {
             property: "C05",
             level: "exploration",
